@@ -44,8 +44,11 @@ def posterior_dataset(names, spec, scale=1.0, pop_level=False):
     n_chain, n_draw = spec.get('chains', 2), spec.get('draws', 3)
     ids = spec.get('ids', ['a', 'b'])
     data = {}
-    for n in names:
-        if pop_level:
+    pooled = set(spec.get('pooled') or [])
+    for i_, n in enumerate(names):
+        # (a hierarchical inference with pooled parameters stores these
+        # without the individual dimension)
+        if pop_level or i_ in pooled:
             data[n] = xr.DataArray(
                 scale * rs.lognormal(-0.5, 0.15, size=(n_chain, n_draw)),
                 dims=['chain', 'draw'],
@@ -565,8 +568,11 @@ def generate(rng, index, tier):
                 out.append(round(rng.uniform(0.4, 1.2), 3))
         return out
     recipes = {'mech': mech, 'errors': errors, 'pop': pop,
-               'posterior': {'seed': rng.randint(0, 1000), 'chains': 2,
-                             'draws': rng.randint(2, 4), 'ids': ['a', 'b']},
+               'posterior': {'seed': rng.randint(0, 1000),
+                             'chains': rng.choice([1, 2, 2, 3]),
+                             'draws': rng.randint(2, 4), 'ids': ['a', 'b'],
+                             'pooled': sorted(rng.sample(
+                                 range(4), rng.choice([0, 0, 1, 2])))},
                'weights': rng.choice([[0.5, 0.5], [0.3, 0.7], [1.0, 0.0],
                                       [0.0, 2.0], [0.3, 0.3, 0.4],
                                       [0.5, 0.0, 0.5], [1.0, 1.0, 2.0]])}
